@@ -93,7 +93,13 @@ impl Scenario for SignSc {
             "bitflip-all" => {
                 p.set("msg_class", *x.pick(&[1i64, 2, 3, 16]));
             }
-            "relabel" | "tags" | "interop" => {}
+            "relabel" | "interop" => {
+                // now and then a message at the 16-bit length boundary (65535 / 65536 / 65537 bytes)
+                if x.chance(1, 16) {
+                    p.set("msg_class", *x.pick(&[15i64, 36, 37]));
+                }
+            }
+            "tags" => {}
             "registry" => {
                 p.set("parties", x.range(2, 8) as i64);
                 if x.chance(1, 2) {
